@@ -237,6 +237,13 @@ Section Pager.
                       (first :: followup_calls sts) ps (option_map pager_attrs (last_opt sts)))
     end.
 
+  (* One listing as the CALLER lives it.  The caller holds a request value [r]; the client method sends it and gives
+     the pager a COPY (the T1 pin "self._request = REQUEST_TYPE(request)"): iteration runs on the pager's own state
+     [pstate], so the caller's request is not among the things iteration can change.  [list_and_drain] returns the
+     outcome together with the request the caller holds afterwards. *)
+  Definition list_and_drain (is_async : bool) (r : call) (resp0 : page) (script : list page) : option outcome * call :=
+    (iterate is_async r resp0 script, r).
+
   (* the consumer breaks out of the loop while it holds page number [b] (0 = the first page): the generator is
      suspended at that yield, nothing further has been fetched, and attribute lookup reaches page [b] *)
   Definition stop_after (b : nat) (o : outcome) : option outcome :=
@@ -271,6 +278,7 @@ Arguments pager_attrs {item attrs fields opts}. Arguments last_opt {A}.
 Arguments iterate {item attrs fields opts}. Arguments mkOutcome {item attrs fields opts}.
 Arguments o_items {item attrs fields opts}. Arguments o_calls {item attrs fields opts}.
 Arguments o_pages {item attrs fields opts}. Arguments o_final {item attrs fields opts}.
+Arguments list_and_drain {item attrs fields opts}.
 Arguments stop_after {item attrs fields opts}. Arguments page_of_item {item attrs}.
 Arguments nonempty_token {item attrs}. Arguments splits_at_first_empty {item attrs}.
 
